@@ -1,5 +1,6 @@
 import Srctools.Wire
 import Srctools.Model.Tok
+import Srctools.Model.TokC
 import Srctools.Model.C01
 import Srctools.Gen.Tok
 import Srctools.Gen.Kvser
@@ -11,6 +12,8 @@ requests:
                            root=true: `Keyvalues.root(*trees).serialise(...)`
   {"op":"parse","s":[cp…],"flags":[[[cp…],b]…],"defaults":[[[cp…],b]…],
    "nk":b,"nv":b,"esc":b,"sl":b,"sb":b,"fold":[[cp,[cp…]]…]}
+      optional "chunks":[[cp…]…] — then the text is delivered as that chunk list and tokenized by
+      the concrete chunk-cursor model TokC (what `C01_roundtrip_chunks` speaks about); "s" is ignored
       → {"k":"root","trees":[tree…],"lines":[n…]} | {"k":"single","trees":[tree]}
         | {"k":"err","err":[id,a,b],"line":n|null}
   {"op":"toks","s":[cp…],"esc":b,"fold":[…]}  → tokens of the text under parse()'s tokenizer options
@@ -77,7 +80,11 @@ def handle (j : Json) : Except String Json := do
       newlineKeys := ← j.getObjValAs? Bool "nk", newlineValues := ← j.getObjValAs? Bool "nv",
       allowEscapes := ← j.getObjValAs? Bool "esc", singleLine := ← j.getObjValAs? Bool "sl",
       singleBlock := ← j.getObjValAs? Bool "sb" }
-    let r := Tok.run Gen.Tok.tables (tokOpts po) f s
+    let r ← match j.getObjVal? "chunks" with
+      | .ok cj => do
+        let cs ← (← cj.getArr?).toList.mapM Wire.strOfCodes
+        pure (TokC.run Gen.Tok.tables (tokOpts po) f (TokC.Src.ofChunks cs))
+      | .error _ => pure (Tok.run Gen.Tok.tables (tokOpts po) f s)
     match parseRun po f r with
     | .root cs =>
       pure (Json.mkObj [("k", Json.str "root"), ("trees", Json.arr (treesJson cs).toArray),
